@@ -112,6 +112,7 @@ pub fn replay_parse(opts: &Opts) -> i32 {
     let out = std::io::stdout();
     let mut out = out.lock();
     let max_fail = opts.num("max-fail", 200);
+    let total = opts.get("total").is_some();
     let (mut n, mut nfail, mut nunspec, mut nok, mut nrej) = (0u64, 0u64, 0u64, 0u64, 0u64);
     let mut samples: Vec<Value> = vec![];
     let mut passthrough = 0u64;
@@ -153,7 +154,21 @@ pub fn replay_parse(opts: &Opts) -> i32 {
             _ => {}
         }
         let obs = run_parse(&input);
-        let kinds = compare_parse(&input, &exp, &obs);
+        let mut kinds = compare_parse(&input, &exp, &obs);
+        if total {
+            // C03: the rest of the pipeline must return too (compile, render, io_map)
+            if let ParseOut::Ok(o, t) = &obs {
+                let c = run_compile(t, o, &["/".to_string()]);
+                match c["st"].as_str() {
+                    Some("panic") => kinds.push("compile-panic"),
+                    Some("ok") => {
+                        if c["renders"][0]["st"].as_str() != Some("ok") { kinds.push("render-panic"); }
+                        if c["iomaps"][0].get("panic").is_some() { kinds.push("iomap-panic"); }
+                    }
+                    _ => {}
+                }
+            }
+        }
         if samples.len() < 6 && (n % 97 == 1) {
             samples.push(json!({"input": input, "expected": exp}));
         }
